@@ -93,8 +93,7 @@ func RunRaceParent(r *vk.Run, secs int, what string, assumptions []string) {
 		fmt.Println("replay: the race part has no single-case replay (free-running schedules); re-run the part")
 		r.Finish(map[string]any{"states": 1, "transitions": 1, "traces_validated_against_impl": 1}, nil)
 	}
-	dir, cleanup := vk.Scratch("race")
-	defer cleanup()
+	dir := scratch("race")
 	sum := filepath.Join(dir, "summary.json")
 	cmd := exec.Command(os.Args[0], "-test.run", "^TestCheck$", "-test.timeout", "0", "-test.count", "1")
 	cmd.Env = append(os.Environ(), raceEnv+"="+sum, fmt.Sprintf("VERIF_RACE_SECS=%d", secs),
@@ -147,7 +146,7 @@ func RunRaceParent(r *vk.Run, secs int, what string, assumptions []string) {
 		}
 	}
 	r.Sample(map[string]any{"iterations": s.Iterations, "per_config": s.PerConfig})
-	vk.CleanScratch()
+	cleanScratch()
 	r.Finish(map[string]any{
 		"states":                        max(s.Distinct, 1),
 		"transitions":                   max(s.Iterations, 1),
